@@ -788,6 +788,112 @@ def refusal_cases(ctx):
 
 
 # ---------------------------------------------------------------------------------------------
+# call histories: the model is a function of its arguments, so every call of a sequence on the same (or equal) expression
+# objects, with changing unknown and reduce_factor, must answer like a first call -- also for symbols that print alike
+# ---------------------------------------------------------------------------------------------
+
+def history_setup(spec):
+    """the objects of one history: spec = {nv, ns, same_name, terms, split}"""
+    o = vx.Objs(spec["nv"], spec["ns"], same_name=spec["same_name"])
+    terms = [(vtree.totuple(cf), vtree.totuple(v)) for cf, v in spec["terms"]]
+    lhs_r, rhs_r = comb_recipe(terms[:spec["split"]]), comb_recipe(terms[spec["split"]:])
+    if spec["split"] < len(terms):
+        make = lambda: sympy.Eq(vx.build(lhs_r, o), vx.build(rhs_r, o), evaluate=False)
+        expr_r = ("vadd", lhs_r, ("vscale", ("int", -1), rhs_r))
+        signed = terms[:spec["split"]] + [(("smul", ("int", -1), cf), v) for cf, v in terms[spec["split"]:]]
+    else:
+        make = lambda: vx.build(lhs_r, o)
+        expr_r, signed = lhs_r, terms
+    return o, make, expr_r, signed
+
+
+def history_step(o, arg, expr_r, signed, target, reduce, envs):
+    """one call; returns (outcome text, failure text or None)"""
+    from symplyphysics.core.experimental.solvers import solve_for_vector  # pylint: disable=import-outside-toplevel
+    cands = contributions(signed, target)
+    try:
+        eq = solve_for_vector(arg, o.vecs[target], reduce_factor=reduce)
+    except Exception as e:  # pylint: disable=broad-except
+        out = f"{type(e).__name__}"
+        return out, (None if not cands else f"refused ({type(e).__name__}: {e}) although the vector is a term"[:200])
+    out = str(eq)
+    if not cands:
+        return out, "an equation is returned although the requested vector is not a term of the expression"
+    c = vx.OutCtx(o)
+    subsets = [sum_recipe(list(x)) for k in range(1, len(cands) + 1) for x in itertools.combinations(cands, k)]
+    try:
+        vals = [(env, vx.eval_sympy(eq.lhs, c, env, "v"), vx.eval_sympy(eq.rhs, c, env, "v"), vx.eval_recipe(expr_r, env)) for env in envs]
+    except (vx.Unsupported, KeyError) as e:
+        return out, f"the answer mentions objects that are not in the expression ({e})"[:200]
+    d = lambda lv, rv: vx.v_add(lv, vx.v_scale(Fraction(-1), rv))
+    if reduce:
+        if eq.lhs is not o.vecs[target]:
+            return out, "the left-hand side is not the requested vector object"
+        for K in subsets:
+            ks = [vx.eval_recipe(K, env) for env, *_ in vals]
+            if all(k != 0 and vx.close(d(lv, rv), vx.v_scale(1 / k, ev)) for k, (env, lv, rv, ev) in zip(ks, vals)):
+                return out, None
+        env, lv, rv, ev = vals[0]
+        return out, (f"lhs - rhs = {vx.show_value(d(lv, rv))} is not expr / k (expr = {vx.show_value(ev)}, k in "
+            f"{[str(vx.eval_recipe(K, env)) for K in subsets]}) at {env.to_json()['vectors']}, scalars {env.to_json()['scalars']}")
+    for env, lv, rv, ev in vals:
+        if not vx.close(d(rv, lv), ev):
+            return out, (f"rhs - lhs = {vx.show_value(d(rv, lv))} is not expr = {vx.show_value(ev)} at {env.to_json()['vectors']}, "
+                f"scalars {env.to_json()['scalars']}")
+    return out, None
+
+
+def run_history(spec, envs):
+    """executes the whole sequence; returns [(step, outcome, failure)]"""
+    o, make, expr_r, signed = history_setup(spec)
+    args = [make(), make()]                     # the same object again and again, and an equal one
+    log = []
+    for i, (target, reduce, which) in enumerate(spec["calls"]):
+        out, fail = history_step(o, args[which], expr_r, signed, target, reduce, envs)
+        log.append((i, out, fail))
+    return log
+
+
+def history_cases(ctx):
+    rng = ctx.rng
+    cap = Capped(ctx, 6)
+    nseq = ctx.pick(40, 300)
+    ncalls = 0
+    kinds = ["sym", "sym", "int", "minus1", "sum", "intsym", "prod"]
+    for q in range(nseq):
+        nv = rng.randint(3, 5)
+        present = rng.sample(range(nv), rng.randint(2, nv - 1))
+        terms = [(gen_coef(rng, nv, 3, rng.choice(kinds)), V(i)) for i in present]
+        if rng.random() < 0.3:
+            terms.append((gen_coef(rng, nv, 3, "sym"), V(rng.choice(present))))          # a vector occurring in two terms
+        split = rng.randrange(1, len(terms)) if rng.random() < 0.3 else len(terms)
+        absent = [i for i in range(nv) if i not in present]
+        calls = []
+        for _ in range(rng.randint(3, 7)):
+            target = rng.choice(absent) if rng.random() < 0.3 else rng.choice(present)
+            calls.append((target, rng.random() < 0.5, rng.randrange(2)))
+        spec = {"nv": nv, "ns": 3, "same_name": rng.random() < 0.5, "terms": terms, "split": split, "calls": calls}
+        envs = [vtree.rand_env(rng, nv, 3, small=False) for _ in range(3)]
+        log = run_history(spec, envs)
+        ncalls += len(log)
+        for i, out, fail in log:
+            if fail:
+                names = "abcdefgh"
+                shown = vx.show_recipe(comb_recipe([(cf, v) for cf, v in terms]))
+                seq = "; ".join(f"solve({names[t]}{'' if r else ', reduce_factor=False'})" for t, r, _w in calls[:i + 1])
+                cap.violation(f"C16:history:{shown}:{seq}", f"after the calls [{seq}] on {shown}"
+                    + (" (all vector symbols are displayed as 'v')" if spec["same_name"] else "") + f": call {i + 1} returns {out} -- {fail}",
+                    {"kind": "history", "spec": spec, "envs": [e.to_json() for e in envs], "failing_call": i, "observed": out, "why": fail,
+                     "expected": "the answer of a first call (the model has no state)", "theorem_or_tie": "solve_reduce / solve_noreduce / "
+                     "refuses_absent_vector on every call of a sequence"}, True)
+                break
+    ctx.evaluated(ncalls, nseq)
+    ctx.coverage["histories"] = {"sequences": nseq, "calls": ncalls, "reported": cap.n, "not_reported_individually": cap.suppressed,
+        "shape": "3-7 calls per expression on the same object and on an equal one, unknown present (70%) or absent, reduce_factor on/off, "
+                 "half of the sequences with all vector symbols sharing one display name, a vector in two terms in 30%"}
+
+
+# ---------------------------------------------------------------------------------------------
 # solve_for_scalar
 # ---------------------------------------------------------------------------------------------
 
@@ -1063,6 +1169,8 @@ def run(ctx):
     solve_vector_complex_cases(ctx)
     ctx.log("solve_for_vector done")
     refusal_cases(ctx)
+    history_cases(ctx)
+    ctx.log("histories done")
     solve_scalar_cases(ctx)
     ctx.log("solve_for_scalar done")
     apply_cases(ctx)
@@ -1076,6 +1184,17 @@ def replay(ctx, rep):
     import json  # pylint: disable=import-outside-toplevel
     sys.setrecursionlimit(3000)
     kind = rep.get("kind")
+    if kind == "history":
+        spec = rep["spec"]
+        spec["calls"] = [tuple(x) for x in spec["calls"]]
+        log = run_history(spec, [vx.Env.from_json(e) for e in rep["envs"]])
+        names = "abcdefgh"
+        rc = 0
+        for (i, out, fail), (t, r, w) in zip(log, spec["calls"]):
+            print(f"call {i + 1}: solve_for_vector(<expr #{w}>, {names[t]}, reduce_factor={r}) -> {out}" + (f"   WRONG: {fail}" if fail else ""))
+            rc = rc or (1 if fail else 0)
+        print("REPRODUCED" if rc else "every call answers like a first call")
+        return rc
     if kind == "solve_for_vector" and rep.get("recipe_lhs"):
         from symplyphysics.core.experimental.solvers import solve_for_vector  # pylint: disable=import-outside-toplevel
         o = vx.Objs(rep["nv"], rep["ns"])
